@@ -72,7 +72,8 @@ func driveDP(p *Plan, shard int, w *Writer, t *codec.Table) {
 	v := drive.NewV2(t)
 	forPairs(p, shard, func(id int, it *Item, ea, eb *Entry) {
 		a, b, o := ea.D, eb.D, it.Opts
-		yaml := p.YamlEvery > 0 && id%p.YamlEvery == 0 && !a.IsVoid() && !b.IsVoid()
+		v.NegZeroB = it.Mode == "negzero"
+		yaml := p.YamlEvery > 0 && id%p.YamlEvery == 0 && !a.IsVoid() && !b.IsVoid() && !v.NegZeroB
 		w.Sess[shard]++
 		w.Emit(shard, Rec{"sess": id, "op": "Begin", "a": a, "b": b, "opts": o, "yaml": yaml, "fam": it.Family})
 		d, r := v.Diff(a, b, o, yaml)
@@ -222,7 +223,8 @@ func driveEQ(p *Plan, shard int, w *Writer, t *codec.Table) {
 	v := drive.NewV2(t)
 	forPairs(p, shard, func(id int, it *Item, ea, eb *Entry) {
 		a, b, o := ea.D, eb.D, it.Opts
-		yaml := p.YamlEvery > 0 && id%p.YamlEvery == 0 && !a.IsVoid() && !b.IsVoid()
+		v.NegZeroB = it.Mode == "negzero"
+		yaml := p.YamlEvery > 0 && id%p.YamlEvery == 0 && !a.IsVoid() && !b.IsVoid() && !v.NegZeroB
 		w.Sess[shard]++
 		w.Emit(shard, Rec{"sess": id, "op": "Eq", "a": a, "b": b, "opts": o, "yaml": yaml,
 			"ab": v.Equals(a, b, o, yaml), "ba": v.Equals(b, a, o, yaml), "aa": v.Equals(a, a, o, yaml)})
